@@ -121,7 +121,10 @@ def search_pos_kernels(chk, r, n):
     import yadism
     from yadism.coefficient_functions import Combiner
 
-    for t, o in corr_weights.combiner_configs(r, n, processes=["EM", "NC"]):
+    # deterministic configurations first: the flavour-averaged (fl11) weights exist at a_s^3 only
+    forced = [(cards.theory(FNS="ZM-VFNS", NfFF=4, PTODIS=3, PTO=2), cards.obs({nm: [dict(x=0.1, Q2=30.0), dict(x=0.3, Q2=3000.0)] for nm in ("F2_total", "FL_light", "F2_charm")}, prDIS=pr_, ProjectileDIS=pj_, PolarizationDIS=0.3)) for pr_, pj_ in (("NC", "electron"), ("EM", "positron"), ("NC", "neutrino"))]
+    forced += [(cards.theory(FNS="FFNS", NfFF=3, PTODIS=2, PTO=2), cards.obs({nm: [dict(x=0.1, Q2=30.0)] for nm in ("F2_total", "F3_total", "FL_charm")}, prDIS="NC"))]
+    for t, o in forced + list(corr_weights.combiner_configs(r, n, processes=["EM", "NC"])):
         lists = {}
         try:
             for pos in [None] + list(cards.QUARKS):
